@@ -197,6 +197,10 @@ def expected(operands):
     return dict(calls=calls, reads=reads, writes=writes, strings=strings, news=news, consts=consts)
 
 
+def prim_array(cls):
+    return cls.startswith('[') and not cls.lstrip('[').startswith('L')
+
+
 def judge(which, snap, exp):
     """list of discrepancies of a snapshot against the expectation, for one property"""
     bad = []
@@ -219,7 +223,8 @@ def judge(which, snap, exp):
             for alts, off, tg in lst:
                 hit = [a for a in alts if (a, off) in got_pairs]
                 if not hit:
-                    bad.append('invoke of %s at offset %d of %s is not reported as a callee (reported: %s)' % (mref(tg), off, caller, got_pairs))
+                    tag = 'ARRAY: ' if prim_array(tg[0]) else ''
+                    bad.append(tag + 'invoke of %s at offset %d of %s is not reported as a callee (reported: %s)' % (mref(tg), off, caller, got_pairs))
                     continue
                 callee = hit[0]
                 ext = snap['methods'].get(callee, {}).get('external')
@@ -368,10 +373,17 @@ def job(jc, spec):
             jc.obligation(eng, pc, z3.BoolVal(False), ext, label=label, what='analysis raised %r' % (snap,))
             continue
         ops = {i: (resolve(P, i, vals[i]) if i in vals else DEFAULTS[i]) for i in range(len(SLOTS))}
-        bad = judge(which, snap, expected(ops))
+        bad_all = judge(which, snap, expected(ops))
+        known = [b for b in bad_all if b.startswith('ARRAY: ')]
+        bad = [b for b in bad_all if not b.startswith('ARRAY: ')]
         # the operands are pinned on the path by the table lookups (checked), so the concrete comparison covers the path
         jc.obligations(eng, pc, {'operands pinned on the path (harness)': pinned, 'cross references': z3.BoolVal(not bad)}, ext,
                        label=label, what='%s: ' + (bad[0] if bad else ''))
+        if which == 'C13':
+            region = z3.Or([e == k for i, e in idx.items() if SLOTS[i][3] == 'm'
+                            for k, mm in enumerate(P.m_list) if prim_array(mm[0])] + [z3.BoolVal(False)])
+            jc.obligation(eng, pc, z3.BoolVal(not known), ext, {'c13_primitive_array_receiver': region}, label=label + ':array receiver',
+                          what=known[0] if known else '')
     eng.partition_guard()
     jc.sample(dict(group=group, symbolic_slots=[SLOTS[i][0] for i in GROUPS[group]], paths=eng.st.paths))
 
